@@ -166,7 +166,43 @@ func genShCases(r *Rng, n int, w *bufio.Writer) {
 
 func runSh(t *Toks) string {
 	c := readSh(t)
+	warmSh(c)
 	return "d=" + c.digest()
+}
+
+// warmSh makes the transaction object of the case a used one: it is hashed in a different state (every covered field
+// class edited in place, counts unchanged) and then edited in place back to the state of the case. A digest must be a
+// function of the current field values, not of what the object was when it was first hashed.
+func warmSh(c *shCase) {
+	tx := c.tx
+	save := tx.Copy()
+	save.Flag = tx.Flag
+	tx.Version ^= 1
+	tx.Locktime ^= 1
+	for _, in := range tx.Inputs {
+		in.Sequence ^= 0x80000000
+		if len(in.Hash) > 0 {
+			in.Hash = flipLast(in.Hash)
+		}
+		if in.Issuance != nil {
+			in.Issuance.AssetEntropy = flipLast(in.Issuance.AssetEntropy)
+		}
+		in.IssuanceRangeProof = grow(in.IssuanceRangeProof)
+	}
+	for _, o := range tx.Outputs {
+		o.Value = altValue(o.Value)
+		o.Script = grow(o.Script)
+		o.RangeProof = grow(o.RangeProof)
+		o.SurjectionProof = grow(o.SurjectionProof)
+	}
+	_ = c.digest()
+	tx.Version, tx.Locktime = save.Version, save.Locktime
+	for i := range tx.Inputs {
+		*tx.Inputs[i] = *save.Inputs[i]
+	}
+	for i := range tx.Outputs {
+		*tx.Outputs[i] = *save.Outputs[i]
+	}
 }
 
 func init() {
